@@ -422,6 +422,23 @@ func cliCases(r *mon.Run, w *world, origPath string) {
 	for _, n := range []string{"x", "../x", "a/b", "zz"} {
 		w.sentinel(work, n)
 	}
+	// the tool runs from a private copy in a directory that is NOT on PATH,
+	// with programs of every name used below beside it, in a sub-directory and
+	// in the home directory: none of these places is part of the search
+	binDir := filepath.Join(w.root, "opt", "age", "bin")
+	home := filepath.Join(w.root, "home")
+	os.MkdirAll(binDir, 0o755)
+	if b, err := os.ReadFile(ageBin); err == nil && os.WriteFile(filepath.Join(binDir, "age"), b, 0o755) == nil {
+		ageBin = filepath.Join(binDir, "age")
+		r.Set("cli_binary_runs_from_a_directory_not_on_path", true)
+	} else {
+		r.Inconclusive("cannot make a private copy of the age binary")
+	}
+	for _, n := range []string{"x", "zz", "q9", "beside", "a.b", "X"} {
+		for _, d := range []string{binDir, filepath.Join(binDir, "plugins"), filepath.Dir(binDir), home, filepath.Join(home, "bin"), filepath.Join(home, ".local", "bin"), filepath.Join(home, ".config", "age", "plugins")} {
+			w.sentinel(d, n)
+		}
+	}
 	in := filepath.Join(work, "in.txt")
 	os.WriteFile(in, []byte("data"), 0o600)
 	path := "PATH=" + w.dA + ":" + w.dB + ":" + origPath
@@ -473,7 +490,7 @@ func cliCases(r *mon.Run, w *world, origPath string) {
 		cases = append(cases, cc{"e-j:" + name, []string{"-e", "-j", name, "-o", "out.age", in}, wantJ, nil})
 		cases = append(cases, cc{"d-j:" + name, []string{"-d", "-j", name, "-o", "out.txt", "x.age"}, wantJ, nil})
 	}
-	for _, n := range []string{"x", "zz", "a.b", "../x", "a/b", "sub/x", "/bin/sh", "..", "x/../y", `a\b`, "X", "a b", "$x", "q9"} {
+	for _, n := range []string{"x", "zz", "beside", "a.b", "../x", "a/b", "sub/x", "/bin/sh", "..", "x/../y", `a\b`, "X", "a b", "$x", "q9"} {
 		addName(n)
 	}
 	// a valid X25519 file with plugin-looking stanza types, decrypted natively
@@ -494,7 +511,7 @@ func cliCases(r *mon.Run, w *world, origPath string) {
 		os.Remove(filepath.Join(work, "out.txt"))
 		w.clear()
 		logp := filepath.Join(work, fmt.Sprintf("strace.%d", i))
-		res := cli.Run(&cli.Cmd{Argv: append([]string{ageBin}, c.argv...), Dir: work, Env: []string{path, "TMPDIR=" + w.tmp},
+		res := cli.Run(&cli.Cmd{Argv: append([]string{ageBin}, c.argv...), Dir: work, Env: []string{path, "TMPDIR=" + w.tmp, "HOME=" + home},
 			Strace: []string{"-e", "trace=execve,execveat"}, StraceLog: logp})
 		r.Eval(1)
 		r.Distinct("cli:" + c.name)
